@@ -224,6 +224,10 @@ fn misc_exprs() -> Vec<String> {
         "x in (y ? [1] : [2])", "(x ? y : z) ? (y ? 1 : 2) : (z ? 3 : 4)", "x ? y ? 1 : 2 : 3", "x ? 1 : y ? 2 : z ? 3 : 4",
         "size(x ? 'a' : 'bc')", "int(x || y)", "type(x ? 1 : 'a')", "timestamp(x).getHours(y ? 'UTC' : z)", "now()", "[now()][0]",
         "l.map(v, now())", "match x { case >y ? 1 : 2: 3 }",
+        // a match as a clause of ?:, constant strings inside f-strings
+        "x ? (match y { case 1: 2, case _: 3 }) : z", "x ? y : match z { case 1: 2, case 2: 3 }", "x ? y : match z { case 1: 2, case 2: 3, case _: 4 }",
+        "x ? (match y { case 1: 2, case 2: 3 }) : (match z { case 1: 2, case 2: 3 })", "[x ? y : match z { case 1: 2, case 2: 3 }]",
+        "f'{x}-{\"k\"}'", "f'{\"\"}'", "f'a{\"b\"}c{x}'", "f'{\"a\"}{\"b\"}'", "[7, {'a': x, 'a': y}]", "10 + {'a': x, 'a': y}.a", "{'a': x, 'b': y, 'a': z}",
         // double negation inside the span of a jump
         "x || !!y", "x && !!y", "x ? !!y : z", "x ? y : !!z", "f'{x && !!y}'", "l.map(v, v || !!x)", "match x { case 1: !!y, case _: z }",
         "(x || !!y) ? 1 : 2", "!!x || !!y", "--x < 0 || y", "x || --y > 0",
